@@ -32,7 +32,7 @@ import (
 )
 
 var simpleCtors = []string{
-	"string", "plainstring", "std", "pipe", "file", "fileonly", "json", "json-std", "json-multiwriter",
+	"string", "plainstring", "std", "pipe", "file", "fileonly", "json", "json-std", "json-multiwriter", "json-multiwriter-faulty-first", "json-multiwriter-faulty-first",
 	"logr-stdr", "logr-stdout", "logr-quiet", "zap", "logrus-text", "logrus-json", "hclog", "hclog-json",
 	"slog-text", "slog-json", "logr-from-loggers", "logr-plain-from-loggers", "hclog-wrapper",
 	"quiet", "quiet-string", "noop", "multiple-default",
@@ -381,6 +381,7 @@ func main() {
 		r.Obs("messages_verified_exactly_once_intact", res.Verified)
 		r.Obs("line_framings_judged_against_lines_logged_alone", res.FramingJudged)
 		r.Obs("groups_without_framing_reference", res.FramingNotCalibrated)
+		r.Obs("writes_of_slow_writers_behind_a_ring_checked_for_overlap", res.AsyncSinkWrites)
 		r.Obs("sink_lines_parsed", res.SinkLines)
 		r.Obs("sink_lines_with_id", res.IDLines)
 		r.Obs("producer_switches_in_sinks", res.Switches)
